@@ -351,3 +351,21 @@ def t7(ctx):
     if not cuts:
         obs.append(ctx.ok(rp.qualname, rp.where, "report is never truncated", "no islice on the differences"))
     return obs
+
+
+@rule("C07", "T8", floor=5, kind="S",
+      desc="each change is reported with its own old and new state: the loops of iter_changes, iter_differences_since and "
+           "the sync report yield values of the current iteration only (same obligations as C01/H4 on those loops) - a "
+           "resource object left over from the previous member turns a removal into a change")
+def t8(ctx):
+    from .common import per_item_obligations
+    return per_item_obligations(ctx, ["xandikos.web.StoreBasedCollection.iter_differences_since", "xandikos.store.git.GitStore.iter_changes",
+                                      "xandikos.sync.SyncCollectionReporter.report"])
+
+
+@rule("C07", "T9", floor=2, kind="N",
+      desc="the hrefs of a sync report address the members: the reporter works from the href of the request and "
+           "create_href quotes the href as a whole (same obligations as C16/H2 and the 'whole href' clause of C16/Q1)")
+def t9(ctx):
+    from .c16 import h2, q1
+    return list(h2(ctx)) + [o for o in q1(ctx) if o.detail == "create_href quotes the whole href"]
